@@ -901,10 +901,6 @@ impl<'a, 'b, 'c> World<'a, 'b, 'c> {
 				for chan in chans {
 					for id in self.pending_of(n, &chan) {
 						self.complete(n, chan, id);
-						// let the manager see this MonitorEvent::Completed before the next completion:
-						// a relaxed persister may answer Completed again only once the manager has
-						// nothing of the channel in flight
-						self.drain();
 						any = true;
 					}
 				}
@@ -1143,7 +1139,11 @@ fn run_schedule(line: &str) {
 				let mut sub: Vec<String> = Vec::new();
 				for n in 0..nn {
 					sub.push(format!("flush {} 0", n));
-					sub.push(format!("completeall {}", n));
+				}
+				// one completion per step: a relaxed persister may answer Completed again only once the
+				// manager has processed the previous MonitorEvent::Completed of that channel
+				for _ in 0..8 {
+					sub.push("cany 0".to_string());
 				}
 				for a in 0..nn {
 					for b in (a + 1)..nn {
@@ -1203,6 +1203,47 @@ fn run_schedule(line: &str) {
 						break;
 					}
 				}
+			}
+			continue;
+		}
+		if toks[0] == "completeall" {
+			let n = toks.get(1).and_then(|s| s.parse::<usize>().ok()).unwrap_or(0) % nn;
+			let mut did = false;
+			for _ in 0..64 {
+				let mut next: Option<(usize, usize)> = None;
+				for (ci, (chan, _)) in world.chans[n].iter().enumerate() {
+					if !world.pending_of(n, chan).is_empty() {
+						next = Some((ci, 0));
+						break;
+					}
+				}
+				let (ci, _) = match next {
+					Some(x) => x,
+					None => break,
+				};
+				let s = format!("complete {} {} 0", n, ci);
+				let st: Vec<&str> = s.split_whitespace().collect();
+				let r = panic::catch_unwind(AssertUnwindSafe(|| {
+					let applied = world.apply(&st);
+					world.drain();
+					world.refresh_chans();
+					applied
+				}));
+				k += 1;
+				did = true;
+				match r {
+					Ok(applied) => emit_step(&mut world, k, &s, applied, None),
+					Err(_) => {
+						let msg = LAST_PANIC.with(|p| p.borrow().clone());
+						emit_step(&mut world, k, &s, true, Some(msg));
+						aborted = true;
+						break 'outer;
+					},
+				}
+			}
+			if !did {
+				k += 1;
+				emit_step(&mut world, k, op, false, None);
 			}
 			continue;
 		}
